@@ -135,5 +135,14 @@ TEXT = {
                 "accuracy of arnoldi_eigs is recorded, not judged (C10 judges eigenpairs)",
         "technique": "runtime monitoring: invariant oracles on the returned factorisation against the reference matrix, reference minimal residual and reference spectrum",
     },
+    "C16": {
+        "level": "Held on the executions observed: generated m x n operators (tall, wide, square; several kinds) with well-separated "
+                 "singular values; svd factors judged for orthonormality, non-negative diagonal Sigma, reconstruction, and for the "
+                 "Krylov algorithm with k < min(m,n) the top-k values and best rank-k error; pinv(A) @ b compared with the reference "
+                 "minimum-norm least-squares solution for every algorithm and structural rule, incl. the large side of the Auto switch.",
+        "note": _NOTE + "; the dense SVD asked for fewer than min(m,n) triplets returns all of them: recorded, not judged (DESIGN 4.0); "
+                "CG-based pinv is judged to its requested tolerance times cond^2",
+        "technique": "runtime monitoring: reference SVD / least-squares oracle over generated shapes, kinds and algorithms",
+    },
 }
 NOT_APPLICABLE = {}
